@@ -7,8 +7,10 @@ import (
 	"reflect"
 	"strings"
 	"testing"
+	"time"
 
 	"metacontroller/pkg/apis/metacontroller/v1alpha1"
+	"metacontroller/pkg/controller/common"
 	"metacontroller/pkg/internal/verif/kit"
 	"metacontroller/pkg/internal/verif/mc"
 	"metacontroller/pkg/internal/verif/sim"
@@ -69,6 +71,8 @@ func c02Build(ssa bool) *c02World {
 	w.Sim.Seed(kit.Labels(kit.Field(kit.Obj(kit.Leaf, "n1", "h"), "0", "spec", "v"), "app", "other"))      // non-matching orphan, at a desired name
 	w.Sim.Seed(kit.Owners(child(kit.Leaf, "n1", "look", "0"), kit.OwnerRef(kit.Thing, "q", "quid", true))) // foreign-owned look-alike
 	w.Sim.Seed(kit.Labels(kit.Obj(kit.Leaf, "n1", "stray"), "app", "other"))                               // non-matching orphan
+	// matching object whose controller is q and which lists p as a plain (non-controller) owner
+	w.Sim.Seed(kit.Owners(child(kit.Leaf, "n1", "shared", "0"), kit.OwnerRef(kit.Thing, "q", "quid", true), kit.OwnerRef(kit.Thing, "p", "puid", false)))
 	for _, n := range []string{"a", "b", "d", "e"} {
 		w.Sim.Seed(child(kit.Leaf, "n2", n, "0")) // same names, same labels, other namespace
 	}
@@ -178,7 +182,7 @@ type c02Dev struct {
 
 var c02Actions = []string{"delete", "recreate", "foreign-owner", "clear-owners", "relabel"}
 
-func (x *c02World) act(action string, k *sim.Kind, name string, locked bool) {
+func (x *c02World) act(action string, k *sim.Kind, name string, locked bool) bool {
 	edit := x.Sim.Edit
 	remove := x.Sim.Remove
 	seed := func(o map[string]interface{}) { x.Sim.Seed(o) }
@@ -186,13 +190,14 @@ func (x *c02World) act(action string, k *sim.Kind, name string, locked bool) {
 	if locked {
 		edit, remove, seed, get = x.Sim.EditLocked, x.Sim.RemoveLocked, x.Sim.SeedLocked, x.Sim.GetLocked
 	}
+	before := kit.JSON(get(k, "n1", name))
 	switch action {
 	case "delete":
 		remove(k, "n1", name)
 	case "recreate":
 		old := get(k, "n1", name)
 		if old == nil {
-			return
+			return false
 		}
 		remove(k, "n1", name)
 		n := kit.Obj(k, "n1", name)
@@ -206,9 +211,153 @@ func (x *c02World) act(action string, k *sim.Kind, name string, locked bool) {
 	case "relabel":
 		edit(k, "n1", name, func(o map[string]interface{}) { kit.Labels(o, "app", "moved") })
 	}
+	return kit.JSON(get(k, "n1", name)) != before
 }
 
 var c02Outcome string
+
+// c02Pairs (thorough tier): every pair of environment actions (boundary1 <= boundary2; any two actions on any
+// two targets, also the same one) against the same rich sync. One world per shard, restored from a snapshot
+// for every case. A foreign write is attributed to the last environment action on the written object.
+type c02Act struct {
+	Boundary int
+	Action   string
+	Kind     *sim.Kind
+	Name     string
+}
+
+func c02Pairs(r *mc.Report, ssa bool, nreq int, idx *int) {
+	targets := []struct {
+		k    *sim.Kind
+		name string
+	}{{kit.Leaf, "a"}, {kit.Leaf, "b"}, {kit.Widget, "c"}, {kit.Leaf, "d"}, {kit.Leaf, "e"}, {kit.Leaf, "g"}, {kit.Leaf, "f"}, {kit.Leaf, "h"}}
+	var acts []c02Act
+	for b := 0; b <= nreq; b++ {
+		for _, a := range c02Actions {
+			for _, tg := range targets {
+				acts = append(acts, c02Act{b, a, tg.k, tg.name})
+			}
+		}
+	}
+	x := c02Build(ssa)
+	snap := x.Base.Snapshot()
+	pairs := 0
+	for i := range acts {
+		for j := i + 1; j < len(acts); j++ {
+			*idx++
+			if !mc.Mine(*idx) {
+				continue
+			}
+			if pairs%256 == 0 && time.Now().After(mc.Deadline()) {
+				r.Capped(fmt.Sprintf("ssa=%v: time budget reached after %d pairs of this shard", ssa, pairs))
+				return
+			}
+			pairs++
+			a1, a2 := acts[i], acts[j]
+			dev := c02Dev{SSA: ssa, Boundary: a1.Boundary, Action: a1.Action, Target: a1.Kind.Resource + "/" + a1.Name,
+				Boundary2: fmt.Sprint(a2.Boundary), Action2: a2.Action + " " + a2.Kind.Resource + "/" + a2.Name}
+			r.Case(dev, fmt.Sprint(*idx), func() []mc.Finding {
+				var f []mc.Finding
+				// effective environment actions so far: position (request index of the first sync, -1 = before it)
+				type done struct {
+					pos    int
+					obj    string
+					action string
+				}
+				var applied []done
+				phase2 := false
+				bad := func(key, format string, a ...interface{}) {
+					if strings.HasPrefix(key, "wrote-uncontrolled-object") || strings.HasPrefix(key, "ssa-apply-on-uncontrolled-object") {
+						// attribute the write to the environment action that made the cached view of the written
+						// object wrong: for an adoption of a non-matching orphan the last relabel, otherwise the
+						// last action on its ownership / identity; "none" if the environment never touched it
+						env := "none"
+						for _, v := range a {
+							q, ok := v.(*sim.Request)
+							if !ok {
+								continue
+							}
+							pos := len(x.Sim.Log)
+							for i, lr := range x.Sim.Log {
+								if lr == q {
+									pos = i
+								}
+							}
+							nonMatching := kit.Str(q.Pre, "metadata", "labels", "app") != "x"
+							own, rel := "", ""
+							for _, d := range applied {
+								if d.obj != q.Kind.Resource+"/"+q.Name || (!phase2 && d.pos > pos) {
+									continue
+								}
+								if d.action == "relabel" {
+									rel = d.action
+								} else {
+									own = d.action
+								}
+							}
+							switch {
+							case q.Verb == "update" && nonMatching && rel != "":
+								env = rel
+							case own != "":
+								env = own
+							case rel != "":
+								env = rel
+							}
+						}
+						key += ":env=" + env
+					}
+					f = append(f, mc.Finding{Key: "C02:" + key, Msg: fmt.Sprintf("%+v: ", dev) + fmt.Sprintf(format, a...)})
+				}
+				x.Base.Restore(snap)
+				common.VerifResetSSAMemo()
+				x.snapshotObserved()
+				for _, a := range []c02Act{a1, a2} {
+					if a.Boundary == 0 && x.act(a.Action, a.Kind, a.Name, false) {
+						applied = append(applied, done{-1, a.Kind.Resource + "/" + a.Name, a.Action})
+					}
+				}
+				n := 0
+				x.Sim.Plan = func(q *sim.Request) *sim.Fault {
+					for _, a := range []c02Act{a1, a2} {
+						if a.Boundary != 0 && a.Boundary == n {
+							if x.act(a.Action, a.Kind, a.Name, true) {
+								applied = append(applied, done{n - 1, a.Kind.Resource + "/" + a.Name, a.Action})
+							}
+							if q.Name == a.Name && q.Kind == a.Kind {
+								q.Pre = x.Sim.GetLocked(a.Kind, "n1", a.Name)
+							}
+						}
+					}
+					n++
+					return nil
+				}
+				x.Sim.ResetLog()
+				fp := vcache.TakeFingerprint()
+				_, p, stack := x.syncKey("n1/p")
+				x.Sim.Plan = nil
+				if p != nil {
+					bad("panic", "panic %v\n%s", p, stack)
+					return f
+				}
+				if e := fp.Verify(); e != nil {
+					bad("cache-mutated", "%v", e)
+				}
+				x.judge(x.Sim.Log, func(*sim.Request) string { return "puid" }, bad)
+				x.Sim.ResetLog()
+				phase2 = true
+				x.snapshotObserved()
+				if _, p, stack := x.syncKey("n1/p"); p != nil {
+					bad("panic", "panic in the follow-up sync %v\n%s", p, stack)
+				}
+				x.judge(x.Sim.Log, func(*sim.Request) string { return "puid" }, bad)
+				c02Outcome = fmt.Sprintf("pair:findings=%d", len(f))
+				return f
+			})
+			r.Outcome(c02Outcome)
+		}
+	}
+	r.Infof("ssa=%v: %d pairs of environment actions (this shard) out of %d single actions", ssa, pairs, len(acts))
+}
 
 func TestVerifC02(t *testing.T) {
 	r := mc.NewReport("C02", "boundaries")
@@ -295,6 +444,9 @@ func TestVerifC02(t *testing.T) {
 			}
 		}
 		r.Infof("ssa=%v: %d requests in the base sync, %d boundaries x %d actions x %d targets", ssa, nreq, nreq+1, len(c02Actions), len(targets))
+		if mc.Thorough() {
+			c02Pairs(r, ssa, nreq, &idx)
+		}
 	}
 	r.Write()
 
